@@ -485,7 +485,12 @@ func (p *parser) parsePseudoclassSelector() (out Sel, pseudoElement string, err 
 		if !p.consumeParenthesis() {
 			return out, "", errExpectedParenthesis
 		}
+		// pseudo-elements are not valid in the argument of :is(), :not() and :has()
+		// (they would be ignored, and the originating element matched instead)
+		accept := p.acceptPseudoElements
+		p.acceptPseudoElements = false
 		sel, parseErr := p.parseSelectorGroup()
+		p.acceptPseudoElements = accept
 		if parseErr != nil {
 			return out, "", parseErr
 		}
